@@ -268,7 +268,7 @@ impl Property for C04 {
         }
     }
     fn required_labels(&self, _tier: Tier) -> Vec<&'static str> {
-        vec!["nontrivial", "obsolete-terms", "ancestors>30", "pair:identical", "pair:ancestor-descendant", "pair:siblings", "pair:cousins", "pair:no-common-ancestor", "both-annotated", "one-annotated", "none-annotated", "records>32767", "depth>255", "direct-parents>10"]
+        vec!["nontrivial", "obsolete-terms", "ancestors>30", "pair:identical", "pair:ancestor-descendant", "pair:siblings", "pair:cousins", "pair:no-common-ancestor", "both-annotated", "one-annotated", "none-annotated", "records>32767", "depth>255", "direct-parents>10", "direct-parents>255"]
     }
     fn run_generated(&self, tier: Tier, seed: u64, n: u64, stats: &mut Stats) -> Option<(Value, Failure)> {
         let max = if tier == Tier::Quick { 12 } else { 20 };
@@ -304,11 +304,21 @@ impl Property for C04 {
             }
             return Ok(r);
         }
+        if let Some(b) = case.get("fanin") {
+            // one term with more direct parents than an 8-bit counter holds
+            let v: (u32, u32, u32) = serde_json::from_value(b.clone()).map_err(|e| e.to_string())?;
+            stats.cases += 1;
+            let r = check(&super::common::fanin_facts(v.0, v.1, v.2), stats);
+            if r.is_ok() {
+                stats.label("direct-parents>255");
+            }
+            return Ok(r);
+        }
         replay_typed::<Facts, _>(case, stats, check)
     }
     fn isolated_plans(&self, tier: Tier, seed: u64) -> Vec<Value> {
         let vary = (seed % 499) as u32;
-        let mut out = vec![json!({"large": (50_000u32 + vary, 40_000u32, 33_000u32)}), json!({"deep": (280u32, 7919u32, 9u32)})];
+        let mut out = vec![json!({"large": (50_000u32 + vary, 40_000u32, 33_000u32)}), json!({"deep": (280u32, 7919u32, 9u32)}), json!({"fanin": (300u32, 104_729u32, 9u32)})];
         if tier == Tier::Thorough {
             out.push(json!({"large": (65_535u32, 65_535u32, 65_535u32)}));
             out.push(json!({"deep": (700u32, 104_729u32, 20u32)}));
